@@ -324,6 +324,28 @@ func protectedPathC04(c *Ctx) error {
 		r.ImplRuns += 3
 		r.Count(dcs, len(ct) > 0, "src:decrypt-"+src)
 		r.Hist["op:decrypt"]++
+		if i%25 == 0 && len(ct) >= 32 {
+			// every value of the recovered pad-length octet: the last plaintext octet is D(last block) xor the octet in
+			// front of it, so sweeping that octet of the ciphertext sweeps the pad length over 0..255 (for 1..4 blocks)
+			al := ct[:len(ct)-len(ct)%16]
+			if len(al) > 80 {
+				al = al[:16+16*rng.Range(1, 4)]
+			}
+			for v := 0; v < 256; v++ {
+				sw := append([]byte(nil), al...)
+				sw[len(sw)-17] = byte(v)
+				a, b := implAesDec(k.s.e, key, exact(sw)), implAesDec(k.s.e, key, spare(sw, 0x33))
+				r.ImplRuns += 2
+				r.Hist["op:decrypt-pad-sweep"]++
+				if a == "fault" || b == "fault" {
+					r.Add(Finding{Kind: "instance", What: "cipher decryption panics", Case: fmt.Sprintf("(dec %s %s %s)", k.s.e, hx(key), hx(sw)), Expected: "value or error", Observed: outcomeClass(a) + " / " + outcomeClass(b)})
+					break
+				} else if a != b {
+					r.Add(Finding{Kind: "instance", What: "cipher decryption outcome depends on memory behind the slice", Case: fmt.Sprintf("(dec %s %s %s)", k.s.e, hx(key), hx(sw)), Expected: a, Observed: b})
+					break
+				}
+			}
+		}
 		dm, err := c.M.Ask(fmt.Sprintf("(aes_decrypt %s %s)", hx(key), hx(ct)))
 		if err != nil {
 			return err
